@@ -1,20 +1,35 @@
-"""C05 site-fact extractor: regenerates the integer expressions (loop bounds, slice bounds, the
-rejection test, feedback positions) of sktime/forecasting/compose/_reduce.py and of
-_BaseWindowForecaster._get_last_window as Gallina functions (build/coq/C05/Gen.v).  The committed
-coq/C05/Bridge.v proves each of them equal, for all arguments, to the expression the model uses.
+"""C05 site-fact extractor, by DATA FLOW.
 
-Fail-closed: every statement of `_sliding_window_transform` must match the expected shape (the
-function is walked statement by statement; an unknown, missing, extra or reordered statement raises),
-and the sites extracted from the strategy classes must exist exactly once.  Only the expressions are
-regenerated; the surrounding control flow is the hand model (tied by the correspondence run).
+The anchored functions of sktime/forecasting/compose/_reduce.py (`_sliding_window_transform` with its
+helpers, the `_predict_last_window` of the four reducers, `_DirRecReducer._fit`) and
+`_BaseWindowForecaster._get_last_window` are executed SYMBOLICALLY by a small interpreter for the
+Python subset they are written in.  What is compared with the expected shape is the VALUE the function
+computes (a term over its inputs: which array is allocated with which extents, which cells are
+written with which values under which conditions and loops, which slice of it reaches
+`estimator.predict`, what is returned), not the text or the order of the statements.  Integer
+expressions are kept as canonical linear forms over the base symbols, so `window_length + fh_max`,
+a temporary holding it, or the same sum written the other way round give the same generated term.
 
-`_get_last_window` is pinned AS USED BY THE REDUCERS: every class of _reduce.py that derives from
-`_Reducer` must inherit it from `_BaseWindowForecaster` (statically: known bases only, no override
-unless it has the same recognised label-based shape, no assignment to the attribute, one call per
-`_predict_last_window` whose result is written into the window slots), and the inherited method must
-select `self._y.loc[cutoff - window_length_ + 1 : cutoff]` BY LABEL (gen_lw_lo / gen_lw_hi; `_shift`
-on an integer is pinned as `x + by`).  A positional selection (`.iloc[-window_length:]`) is not
-recognised and fails closed.
+The interpreter follows (generally, not for one patch):
+  * calls of module-level functions of the same file / of `sktime.utils.datetime._shift`, and
+    `self._helper(...)` calls resolved through the class hierarchy (interprocedural, with argument
+    binding; staticmethods; recursion refused);
+  * guard clauses: `if c: return a` + rest == `if c: return a else: rest`, `if c: raise E` and
+    `assert c` likewise (a raise is a result of the function); conditional expressions vs if/else
+    assignments; `if c: x = f(x)` vs an else branch; `is None` / `is not None` / `not`;
+  * renamed locals, temporaries introduced or inlined, repeated sub-expressions computed once,
+    reordering of statements without data dependence (evaluation is by environment, the writes to an
+    array are kept with the path condition and loop they occur under);
+  * `for i in range(len(xs))` with `xs[i]` vs `for i, x in enumerate(xs)`.
+It REFUSES (raises Unsupported, a broken tie): statements outside the subset, loop-carried local
+variables, writes through views, calls with side effects it does not know, recursion.
+
+Emitted (build/coq/C05/Gen.v): Gallina functions over the base symbols (wl, fm, n, k, h, i, c).
+coq/C05/Bridge.v proves each equal to the model's expression for all arguments (`unfold; lia`, i.e.
+semantically: any equivalent linear form proves).  Facts that are not integer expressions (which array
+is sliced, that the window comes from `_get_last_window`, that it is selected by label, the
+variable-major reshape, which regressor is asked) are checked here on the symbolic value and fail
+closed.
 """
 import ast
 import os
@@ -25,300 +40,1197 @@ class Unsupported(Exception):
 
 
 def _u(node):
-    return ast.unparse(node)
+    try:
+        return ast.unparse(node)
+    except Exception:
+        return repr(node)
 
 
-def _expr(e, env):
-    """integer expression over the names in env (python name -> coq name)"""
-    if isinstance(e, ast.Constant) and isinstance(e.value, int) and not isinstance(e.value, bool):
-        return "(%d)" % e.value
-    if isinstance(e, ast.Name):
+# ------------------------------------------------------------------------------------------------
+# values
+
+
+class Lin:
+    """canonical linear form  sum coeff * atom + const  (atoms: symbol names or opaque values)"""
+    __slots__ = ("t", "c")
+
+    def __init__(self, t=None, c=0):
+        self.t = {a: k for a, k in (t or {}).items() if k != 0}
+        self.c = c
+
+    def key(self):
+        return (tuple(sorted(((repr(a), k) for a, k in self.t.items()))), self.c)
+
+    def __eq__(self, o):
+        return isinstance(o, Lin) and self.t == o.t and self.c == o.c
+
+    def __hash__(self):
+        return hash(self.key())
+
+    def __repr__(self):
+        return "Lin(%s)" % (" + ".join(["%d*%r" % (k, a) for a, k in sorted(
+            self.t.items(), key=lambda x: repr(x[0]))] + [str(self.c)]))
+
+    def is_const(self):
+        return not self.t
+
+    def add(self, o, s=1):
+        t = dict(self.t)
+        for a, k in o.t.items():
+            t[a] = t.get(a, 0) + s * k
+        return Lin(t, self.c + s * o.c)
+
+    def scale(self, k):
+        return Lin({a: k * v for a, v in self.t.items()}, k * self.c)
+
+    def atoms(self):
+        return set(self.t)
+
+    def subst(self, m):
+        """replace atoms by Lin forms / names"""
+        r = Lin({}, self.c)
+        for a, k in self.t.items():
+            v = m.get(a, a)
+            r = r.add(v.scale(k) if isinstance(v, Lin) else Lin({v: k}))
+        return r
+
+
+def lin(x):
+    return Lin({}, x) if isinstance(x, int) else Lin({x: 1})
+
+
+class Arr:
+    """np.zeros(shape) with the writes made to it (identity matters)"""
+    _n = 0
+
+    def __init__(self, shape, guards, loops):
+        Arr._n += 1
+        self.id = Arr._n
+        self.shape = shape
+        self.birth_guards = tuple(guards)
+        self.birth_loops = tuple(loops)
+        self.writes = []      # (guards relative to birth, loops relative to birth, index, value)
+
+    def __repr__(self):
+        return "Arr#%d%r" % (self.id, (self.shape,))
+
+
+class ListObj:
+    """a list literal bound to a name / attribute, with the appends made to it"""
+
+    def __init__(self, items):
+        self.items = list(items)
+        self.appends = []     # (guards, loops, value)
+
+    def __repr__(self):
+        return "List%r+%r" % (self.items, self.appends)
+
+
+NONE = ("none",)
+TRUE = ("bool", True)
+FALSE = ("bool", False)
+
+
+def mk_not(t):
+    if t == TRUE:
+        return FALSE
+    if t == FALSE:
+        return TRUE
+    if isinstance(t, tuple) and t and t[0] == "not":
+        return t[1]
+    return ("not", t)
+
+
+def mk_cond(t, a, b):
+    if t == TRUE:
+        return a
+    if t == FALSE:
+        return b
+    if isinstance(t, tuple) and t[0] == "not":
+        return mk_cond(t[1], b, a)
+    if a == b and not isinstance(a, (Arr, ListObj)):
+        return a
+    if a is b:
+        return a
+    if isinstance(a, tuple) and isinstance(b, tuple) and a and b and a[0] == b[0] == "tuple" \
+            and len(a) == len(b):
+        # a conditional pair is the pair of the conditionals
+        return ("tuple",) + tuple(mk_cond(t, x, y) for x, y in zip(a[1:], b[1:]))
+    return ("cond", t, a, b)
+
+
+# ------------------------------------------------------------------------------------------------
+# the interpreter
+
+
+class World:
+    """the parsed modules: where functions and classes live"""
+
+    def __init__(self, mods, alias):
+        self.mods = mods                       # name -> ast.Module
+        self.alias = alias                     # dotted module name -> name
+        self.funcs = {}                        # (modname, fname) -> FunctionDef
+        self.classes = {}                      # cname -> (modname, ClassDef)
+        self.imports = {}                      # modname -> {local name: (source module, name)}
+        for mn, m in mods.items():
+            self.imports[mn] = {}
+            for n in m.body:
+                if isinstance(n, ast.FunctionDef):
+                    self.funcs[(mn, n.name)] = n
+                elif isinstance(n, ast.ClassDef):
+                    if n.name in self.classes:
+                        raise Unsupported("class %s defined twice" % n.name)
+                    self.classes[n.name] = (mn, n)
+                elif isinstance(n, ast.ImportFrom):
+                    for a in n.names:
+                        self.imports[mn][a.asname or a.name] = (alias.get(n.module, n.module), a.name)
+
+    def mro(self, cname):
+        """left-to-right depth-first linearisation over the classes we can see (the hierarchies here
+        are mixin + single inheritance; an unknown base ends the search on that branch)"""
+        out = []
+
+        def go(c):
+            if c in out or c not in self.classes:
+                return
+            out.append(c)
+            for b in self.classes[c][1].bases:
+                go(_u(b))
+        go(cname)
+        # a class must come before its bases: move every class after all classes deriving from it
+        changed = True
+        while changed:
+            changed = False
+            for i, c in enumerate(out):
+                for j in range(i + 1, len(out)):
+                    if c in [_u(b) for b in self.classes[out[j]][1].bases]:
+                        out.insert(j, out.pop(i))
+                        changed = True
+                        break
+                if changed:
+                    break
+        return out
+
+    def method(self, cname, name):
+        for c in self.mro(cname):
+            mn, cd = self.classes[c]
+            hits = [n for n in cd.body if isinstance(n, ast.FunctionDef) and n.name == name]
+            others = [n for n in cd.body if isinstance(n, (ast.Assign, ast.AnnAssign))
+                      and any(isinstance(t, ast.Name) and t.id == name
+                              for t in (n.targets if isinstance(n, ast.Assign) else [n.target]))]
+            if others or len(hits) > 1:
+                raise Unsupported("%s.%s is bound in an unusual way" % (c, name))
+            if hits:
+                return c, mn, hits[0]
+        return None
+
+
+SIDE_EFFECT_METHODS = ("fit", "predict", "append")
+PURE_NP = ("zeros",)
+
+
+class Interp:
+    def __init__(self, world, modname, cls=None, opaque_funcs=(), int_attrs=("cutoff", "window_length_")):
+        self.w = world
+        self.int_attrs = set(int_attrs)   # attributes of self that are integers (integer time index)
+        self.pending = []                 # (test, exception): the call just made raises unless test
+        self.loop_base = 0                # loops opened by callers of the function being executed
+        self.modname = modname
+        self.cls = cls
+        self.opaque_funcs = set(opaque_funcs)
+        self.guards = []
+        self.loops = []
+        self.loopsets = []            # per open loop: (names assigned in the body, assigned so far)
+        self.nloop = 0
+        self.effects = []             # ordered: (kind, guards, loops, payload)
+        self.selfattrs = {}
+        self.inlined = []             # (class or None, function name) inlined, in order
+        self.stack = []
+
+    # --- expressions -----------------------------------------------------------------------------
+    def atomise(self, v, node=None):
+        if isinstance(v, Lin):
+            return v
+        if isinstance(v, tuple) and v and v[0] == "bool":
+            raise Unsupported("boolean in arithmetic: " + _u(node))
+        try:
+            hash(v)
+        except TypeError:
+            raise Unsupported("value cannot be an integer atom: %r" % (v,))
+        return lin(v)
+
+    def ev(self, e, env):
+        m = getattr(self, "ev_" + type(e).__name__, None)
+        if m is None:
+            raise Unsupported("expression %s: %s" % (type(e).__name__, _u(e)))
+        return m(e, env)
+
+    def ev_Constant(self, e, env):
+        v = e.value
+        if isinstance(v, bool):
+            return TRUE if v else FALSE
+        if isinstance(v, int):
+            return lin(v)
+        if v is None:
+            return NONE
+        if isinstance(v, str):
+            return ("str", v)
+        raise Unsupported("constant %r" % (v,))
+
+    def ev_Name(self, e, env):
+        for names, done in self.loopsets[self.loop_base:]:
+            if e.id in names and e.id not in done:
+                raise Unsupported("loop-carried local variable %s" % e.id)
         if e.id in env:
-            return env[e.id]
-        raise Unsupported("unbound name %s" % e.id)
-    if isinstance(e, ast.Attribute):
-        u = _u(e)
-        if u in env:
-            return env[u]
-        raise Unsupported("unbound attribute %s" % u)
-    if isinstance(e, ast.UnaryOp) and isinstance(e.op, ast.USub):
-        return "(- %s)" % _expr(e.operand, env)
-    if isinstance(e, ast.BinOp) and type(e.op) in (ast.Add, ast.Sub, ast.Mult):
-        op = {ast.Add: "+", ast.Sub: "-", ast.Mult: "*"}[type(e.op)]
-        return "(%s %s %s)" % (_expr(e.left, env), op, _expr(e.right, env))
-    raise Unsupported("expression %s" % _u(e))
+            v = env[e.id]
+            if v == ("undef",):
+                raise Unsupported("name %s is not bound on every path" % e.id)
+            return v
+        return ("name", e.id)
 
+    def ev_Attribute(self, e, env):
+        b = self.ev(e.value, env)
+        if b == ("name", "self") and e.attr in self.selfattrs:
+            return self.selfattrs[e.attr]
+        if b == ("name", "self") and e.attr in self.int_attrs:
+            return lin(("attr", b, e.attr))
+        if isinstance(b, Arr) and e.attr == "shape":
+            return ("tuple",) + tuple(b.shape)
+        return ("attr", b, e.attr)
 
-def _cmp(e, env):
-    if isinstance(e, ast.Compare) and len(e.ops) == 1:
-        op = {ast.Gt: ">?", ast.GtE: ">=?", ast.Lt: "<?", ast.LtE: "<=?", ast.Eq: "=?"}.get(type(e.ops[0]))
-        if op:
-            return "(%s %s %s)" % (_expr(e.left, env), op, _expr(e.comparators[0], env))
-    raise Unsupported("comparison %s" % _u(e))
+    def ev_Tuple(self, e, env):
+        return ("tuple",) + tuple(self.ev(x, env) for x in e.elts)
 
+    def ev_List(self, e, env):
+        return ("list",) + tuple(self.ev(x, env) for x in e.elts)
 
-def _need(cond, what, node=None):
-    if not cond:
-        raise Unsupported("%s%s" % (what, (": " + _u(node)) if node is not None else ""))
+    def ev_UnaryOp(self, e, env):
+        v = self.ev(e.operand, env)
+        if isinstance(e.op, ast.USub):
+            return self.atomise(v, e).scale(-1)
+        if isinstance(e.op, ast.Not):
+            return mk_not(v)
+        raise Unsupported("unary operator: " + _u(e))
 
+    def ev_BinOp(self, e, env):
+        a, b = self.ev(e.left, env), self.ev(e.right, env)
+        if isinstance(e.op, (ast.Add, ast.Sub)):
+            return self.atomise(a, e).add(self.atomise(b, e), 1 if isinstance(e.op, ast.Add) else -1)
+        if isinstance(e.op, ast.Mult):
+            a, b = self.atomise(a, e), self.atomise(b, e)
+            if a.is_const():
+                return b.scale(a.c)
+            if b.is_const():
+                return a.scale(b.c)
+        raise Unsupported("arithmetic: " + _u(e))
 
-def _find(mod, path):
-    node = mod
-    for p in path.split("."):
-        for n in node.body:
-            if isinstance(n, (ast.FunctionDef, ast.ClassDef)) and n.name == p:
-                node = n
-                break
+    def ev_BoolOp(self, e, env):
+        vs = [self.ev(x, env) for x in e.values]
+        tag = "and" if isinstance(e.op, ast.And) else "or"
+        out = []
+        for v in vs:
+            if v == (TRUE if tag == "and" else FALSE):
+                continue
+            if v == (FALSE if tag == "and" else TRUE):
+                return v
+            out.append(v)
+        if not out:
+            return TRUE if tag == "and" else FALSE
+        return out[0] if len(out) == 1 else (tag,) + tuple(out)
+
+    def ev_Compare(self, e, env):
+        if len(e.ops) != 1:
+            raise Unsupported("chained comparison: " + _u(e))
+        a, b = self.ev(e.left, env), self.ev(e.comparators[0], env)
+        op = e.ops[0]
+        if isinstance(op, (ast.Is, ast.IsNot)):
+            if b != NONE:
+                raise Unsupported("`is` with something else than None: " + _u(e))
+            t = FALSE if isinstance(a, (Lin, Arr)) else TRUE if a == NONE else ("isnone", a)
+            return t if isinstance(op, ast.Is) else mk_not(t)
+        name = {ast.Gt: ">", ast.GtE: ">=", ast.Lt: "<", ast.LtE: "<=", ast.Eq: "==",
+                ast.NotEq: "!="}.get(type(op))
+        if name is None:
+            raise Unsupported("comparison: " + _u(e))
+        if not (_is(a, "str") or _is(b, "str")):
+            a, b = self.atomise(a, e), self.atomise(b, e)
+        if isinstance(a, Lin) and isinstance(b, Lin) and a.is_const() and b.is_const():
+            r = {">": a.c > b.c, ">=": a.c >= b.c, "<": a.c < b.c, "<=": a.c <= b.c,
+                 "==": a.c == b.c, "!=": a.c != b.c}[name]
+            return TRUE if r else FALSE
+        if name == "!=":
+            return mk_not(("cmp", "==", a, b))
+        return ("cmp", name, a, b)
+
+    def ev_IfExp(self, e, env):
+        t = self.ev(e.test, env)
+        if t == TRUE:
+            return self.ev(e.body, env)
+        if t == FALSE:
+            return self.ev(e.orelse, env)
+        self.guards.append(t)
+        a = self.ev(e.body, env)
+        self.guards[-1] = mk_not(t)
+        b = self.ev(e.orelse, env)
+        self.guards.pop()
+        return mk_cond(t, a, b)
+
+    def index(self, s, env):
+        if isinstance(s, ast.Tuple):
+            return tuple(self.index1(x, env) for x in s.elts)
+        return (self.index1(s, env),)
+
+    def index1(self, s, env):
+        if isinstance(s, ast.Slice):
+            lo = None if s.lower is None else self.atomise(self.ev(s.lower, env), s)
+            hi = None if s.upper is None else self.atomise(self.ev(s.upper, env), s)
+            if s.step is not None:
+                raise Unsupported("slice with a step: " + _u(s))
+            if lo is None and hi is None:
+                return ("full",)
+            return ("slice", lo, hi)
+        return ("at", self.ev(s, env))
+
+    def ev_Subscript(self, e, env):
+        b = self.ev(e.value, env)
+        ix = self.index(e.slice, env)
+        if isinstance(b, tuple) and b and b[0] in ("tuple", "list") and len(ix) == 1 \
+                and ix[0][0] == "at" and isinstance(ix[0][1], Lin) and ix[0][1].is_const():
+            k = ix[0][1].c
+            if -(len(b) - 1) <= k < len(b) - 1:
+                return b[1:][k]
+        if isinstance(b, Arr):
+            return ("sub", b, ix, len(b.writes))
+        return ("sub", b, ix, 0)
+
+    def isinstance_(self, v, t):
+        """isinstance(v, T) for an integer time point v: the integer RangeIndex modelling assumption"""
+        names = [_u(x) for x in (t.elts if isinstance(t, ast.Tuple) else [t])]
+        if not isinstance(v, Lin):
+            return None
+        ints = {"int", "np.integer", "np.int64"}
+        times = {"pd.Period", "pd.Timestamp", "pd.Timedelta", "pd.Int64Index", "pd.Index"}
+        if any(n in ints for n in names):
+            return TRUE
+        if all(n in times for n in names):
+            return FALSE
+        return None
+
+    def ev_Call(self, e, env):
+        f = e.func
+        fu = _u(f)
+        if any(isinstance(a, ast.Starred) for a in e.args) or any(k.arg is None for k in e.keywords):
+            raise Unsupported("star arguments: " + _u(e))
+        if fu == "isinstance" and len(e.args) == 2:
+            r = self.isinstance_(self.ev(e.args[0], env), e.args[1])
+            if r is not None:
+                return r
+        args = [self.ev(a, env) for a in e.args]
+        kw = {k.arg: self.ev(k.value, env) for k in e.keywords}
+        # np.zeros
+        if fu == "np.zeros":
+            if len(args) != 1 or kw:
+                raise Unsupported("np.zeros arguments: " + _u(e))
+            shp = args[0][1:] if isinstance(args[0], tuple) and args[0][0] == "tuple" else (args[0],)
+            shp = tuple(d if isinstance(d, Lin) or _is(d, "cond") else self.atomise(d, e) for d in shp)
+            return Arr(shp, self.guards, self.loops)
+        if fu == "len" and len(args) == 1 and not kw:
+            if isinstance(args[0], Arr):
+                return args[0].shape[0]
+            return lin(("len", args[0]))
+        # functions of this file / imported helpers
+        if isinstance(f, ast.Name):
+            tgt = None
+            if (self.modname, f.id) in self.w.funcs:
+                tgt = (self.modname, f.id)
+            elif f.id in self.w.imports[self.modname]:
+                src, nm = self.w.imports[self.modname][f.id]
+                if (src, nm) in self.w.funcs:
+                    tgt = (src, nm)
+            if tgt and f.id not in self.opaque_funcs:
+                return self.inline(tgt[0], None, self.w.funcs[tgt], None, args, kw, e)
+            return ("call", ("name", f.id), tuple(args), tuple(sorted(kw.items())))
+        if isinstance(f, ast.Attribute):
+            recv = self.ev(f.value, env)
+            if recv == ("name", "self") and self.cls is not None:
+                hit = self.w.method(self.cls, f.attr)
+                if hit is not None:
+                    c, mn, fn = hit
+                    return self.inline(mn, c, fn, recv, args, kw, e)
+                raise Unsupported("method %s not found in the class hierarchy of %s" % (f.attr, self.cls))
+            if isinstance(recv, ListObj):
+                if f.attr == "append" and len(args) == 1 and not kw:
+                    recv.appends.append((tuple(self.guards), tuple(self.loops), args[0]))
+                    return NONE
+                raise Unsupported("list method: " + _u(e))
+            if isinstance(recv, Arr) and f.attr not in ("reshape", "ravel", "copy"):
+                raise Unsupported("method of a tracked array: " + _u(e))
+            v = ("mcall", recv, f.attr, tuple(args), tuple(sorted(kw.items())))
+            if f.attr in SIDE_EFFECT_METHODS:
+                self.effects.append((f.attr, tuple(self.guards), tuple(self.loops), v))
+            return v
+        raise Unsupported("call: " + _u(e))
+
+    def inline(self, mn, cname, fn, selfv, args, kw, site):
+        key = (cname, fn.name)
+        if key in self.stack:
+            raise Unsupported("recursion through %s" % fn.name)
+        if len(self.stack) > 8:
+            raise Unsupported("call depth")
+        deco = [_u(d) for d in fn.decorator_list]
+        if any(d not in ("staticmethod",) for d in deco):
+            raise Unsupported("decorated function %s" % fn.name)
+        a = fn.args
+        if a.vararg or a.kwarg or a.kwonlyargs or a.posonlyargs:
+            raise Unsupported("signature of %s" % fn.name)
+        params = [p.arg for p in a.args]
+        env = {}
+        if selfv is not None and "staticmethod" not in deco:
+            if not params or params[0] != "self":
+                raise Unsupported("method %s without self" % fn.name)
+            env["self"] = selfv
+            params = params[1:]
+        if len(args) > len(params):
+            raise Unsupported("too many arguments for %s: %s" % (fn.name, _u(site)))
+        for p, v in zip(params, args):
+            env[p] = v
+        defaults = dict(zip([p.arg for p in a.args][len(a.args) - len(a.defaults):], a.defaults))
+        for p in params[len(args):]:
+            if p in kw:
+                env[p] = kw.pop(p)
+            elif p in defaults:
+                env[p] = self.ev(defaults[p], {})
+            else:
+                raise Unsupported("missing argument %s of %s" % (p, fn.name))
+        if kw:
+            raise Unsupported("unknown keyword arguments of %s: %s" % (fn.name, sorted(kw)))
+        self.inlined.append(key)
+        self.stack.append(key)
+        old = (self.modname, self.loop_base)
+        self.modname = mn
+        self.loop_base = len(self.loopsets)
+        try:
+            r = self.block(self.body(fn), env)
+        finally:
+            self.modname, self.loop_base = old
+            self.stack.pop()
+        return self.strip_raises(NONE if r is None else r, fn.name)
+
+    def strip_raises(self, v, what):
+        """the value of a call whose body may raise: the exceptional exits become pending conditions
+        of the caller (the rest of the caller runs only if they do not fire)"""
+        while _is(v, "cond", 4) and (_is(v[2], "raise") or _is(v[3], "raise")):
+            if _is(v[3], "raise"):
+                self.pending.append((v[1], v[3][1]))
+                v = v[2]
+            else:
+                self.pending.append((mk_not(v[1]), v[2][1]))
+                v = v[3]
+        if _is(v, "raise"):
+            raise Unsupported("%s always raises" % what)
+        return v
+
+    @staticmethod
+    def body(fn):
+        b = list(fn.body)
+        if b and isinstance(b[0], ast.Expr) and isinstance(getattr(b[0], "value", None), ast.Constant) \
+                and isinstance(b[0].value.value, str):
+            b = b[1:]
+        return b
+
+    # --- statements ------------------------------------------------------------------------------
+    def mark(self, name):
+        for names, done in self.loopsets[self.loop_base:]:
+            done.add(name)
+
+    def assign(self, tgt, v, env, node):
+        if isinstance(tgt, ast.Name):
+            env[tgt.id] = v
+            self.mark(tgt.id)
+        elif isinstance(tgt, ast.Tuple):
+            n = len(tgt.elts)
+            if isinstance(v, tuple) and v and v[0] == "tuple" and len(v) - 1 == n:
+                parts = v[1:]
+            elif isinstance(v, tuple) and v and v[0] == "cond":
+                # unpacking a conditional pair: push the unpacking into the branches
+                parts = None
+                for k, t in enumerate(tgt.elts):
+                    self.assign(t, self.proj(v, k, n), env, node)
+                return
+            else:
+                parts = [("sub", v, (("at", lin(k)),), 0) for k in range(n)]
+            for t, p in zip(tgt.elts, parts):
+                self.assign(t, p, env, node)
+        elif isinstance(tgt, ast.Subscript):
+            b = self.ev(tgt.value, env)
+            if not isinstance(b, Arr):
+                raise Unsupported("write through something that is not a tracked array: " + _u(node))
+            g, lp = tuple(self.guards), tuple(self.loops)
+            if g[:len(b.birth_guards)] != b.birth_guards or lp[:len(b.birth_loops)] != b.birth_loops:
+                raise Unsupported("array written outside the scope it was created in: " + _u(node))
+            b.writes.append((g[len(b.birth_guards):], lp[len(b.birth_loops):],
+                             self.index(tgt.slice, env), v))
+        elif isinstance(tgt, ast.Attribute) and _u(tgt.value) == "self":
+            if self.loops:
+                raise Unsupported("attribute assigned inside a loop: " + _u(node))
+            if _is(v, "list"):
+                v = ListObj(v[1:])
+            self.selfattrs[tgt.attr] = v
+            self.effects.append(("setattr", tuple(self.guards), tuple(self.loops), (tgt.attr, v)))
         else:
-            raise Unsupported("missing " + path)
-    return node
+            raise Unsupported("assignment target: " + _u(node))
+
+    def proj(self, v, k, n):
+        if isinstance(v, tuple) and v and v[0] == "cond":
+            return mk_cond(v[1], self.proj(v[2], k, n), self.proj(v[3], k, n))
+        if isinstance(v, tuple) and v and v[0] == "tuple" and len(v) - 1 == n:
+            return v[1 + k]
+        if isinstance(v, tuple) and v and v[0] == "raise":
+            return v
+        return ("sub", v, (("at", lin(k)),), 0)
+
+    def block(self, stmts, env):
+        """returns the value returned / raised by the block, or None when it falls through"""
+        for pos, st in enumerate(stmts):
+            n0 = len(self.pending)
+            r = self.step(st, stmts[pos + 1:], env)
+            pend = self.pending[n0:]
+            del self.pending[n0:]
+            if pend:
+                # something called by this statement may raise: the rest runs only otherwise
+                if self.stack_loops_open():
+                    raise Unsupported("a call that may raise inside a loop: " + _u(st)[:60])
+                if r is _FALLTHROUGH:
+                    for t, _ in pend:
+                        self.guards.append(t)
+                    try:
+                        r = self.block(stmts[pos + 1:], env)
+                    finally:
+                        del self.guards[len(self.guards) - len(pend):]
+                    r = NONE if r is None else r
+                for t, exc in reversed(pend):
+                    r = mk_cond(t, r, ("raise", exc))
+                return r
+            if r is not _FALLTHROUGH:
+                return r
+        return None
+
+    def step(self, st, rest, env):
+        if isinstance(st, ast.Expr):
+            if isinstance(st.value, ast.Constant) and isinstance(st.value.value, str):
+                return _FALLTHROUGH
+            if isinstance(st.value, ast.Call):
+                if _u(st.value.func) in ("warn", "warnings.warn"):
+                    return _FALLTHROUGH
+                v = self.ev(st.value, env)
+                if v == NONE or (_is(v, "mcall") and v[2] in SIDE_EFFECT_METHODS):
+                    return _FALLTHROUGH
+            raise Unsupported("expression statement: " + _u(st))
+        if isinstance(st, ast.Assign):
+            v = self.ev(st.value, env)
+            for t in st.targets:
+                self.assign(t, v, env, st)
+            return _FALLTHROUGH
+        if isinstance(st, ast.AugAssign):
+            if not isinstance(st.target, ast.Name):
+                raise Unsupported("augmented assignment: " + _u(st))
+            v = self.ev(ast.BinOp(left=ast.Name(id=st.target.id, ctx=ast.Load()), op=st.op,
+                                  right=st.value), env)
+            self.assign(st.target, v, env, st)
+            return _FALLTHROUGH
+        if isinstance(st, ast.Return):
+            if self.stack_loops_open():
+                raise Unsupported("return inside a loop")
+            return NONE if st.value is None else self.ev(st.value, env)
+        if isinstance(st, ast.Raise):
+            if self.stack_loops_open():
+                raise Unsupported("raise inside a loop")
+            exc = st.exc.func if isinstance(st.exc, ast.Call) else st.exc
+            return ("raise", _u(exc))
+        if isinstance(st, ast.Assert):
+            t = self.ev(st.test, env)
+            if t == FALSE:
+                raise Unsupported("assert that always fails: " + _u(st))
+            if t != TRUE:
+                self.pending.append((t, "AssertionError"))
+            return _FALLTHROUGH
+        if isinstance(st, ast.If):
+            return self.if_(st, rest, env)
+        if isinstance(st, ast.For):
+            self.for_(st, env)
+            return _FALLTHROUGH
+        if isinstance(st, ast.Pass):
+            return _FALLTHROUGH
+        raise Unsupported("statement %s: %s" % (type(st).__name__, _u(st)[:80]))
+
+    def stack_loops_open(self):
+        """is a loop of the function being executed open (loops of its callers do not count)"""
+        return len(self.loopsets) > self.loop_base
+
+    def if_(self, st, rest, env):
+        t = self.ev(st.test, env)
+        if t == TRUE or t == FALSE:
+            r = self.block(st.body if t == TRUE else st.orelse, env)
+            return _FALLTHROUGH if r is None else r
+        ea, eb = dict(env), dict(env)
+        sa, sb = dict(self.selfattrs), dict(self.selfattrs)
+        self.guards.append(t)
+        self.selfattrs = sa
+        ra = self.block(st.body, ea)
+        self.guards[-1] = mk_not(t)
+        self.selfattrs = sb
+        rb = self.block(st.orelse, eb)
+        self.guards.pop()
+        if ra is not None and rb is not None:
+            self.selfattrs = sa
+            return mk_cond(t, ra, rb)
+        if ra is not None or rb is not None:
+            if self.stack_loops_open():
+                raise Unsupported("return inside a loop")
+            # guard clause: the rest of the block runs on the other path only
+            live_env, live_sa, g = (eb, sb, mk_not(t)) if ra is not None else (ea, sa, t)
+            self.selfattrs = live_sa
+            self.guards.append(g)
+            try:
+                rr = self.block(rest, live_env)
+            finally:
+                self.guards.pop()
+            env.clear()
+            env.update(live_env)
+            rr = NONE if rr is None else rr
+            return mk_cond(t, ra, rr) if ra is not None else mk_cond(t, rr, rb)
+        # merge
+        self.selfattrs = {}
+        for k in set(sa) | set(sb):
+            va, vb = sa.get(k, ("undef",)), sb.get(k, ("undef",))
+            self.selfattrs[k] = va if va is vb or self.same(va, vb) else mk_cond(t, va, vb)
+        for k in set(ea) | set(eb):
+            va, vb = ea.get(k, ("undef",)), eb.get(k, ("undef",))
+            if va is vb or self.same(va, vb):
+                env[k] = va
+            elif va == ("undef",) or vb == ("undef",):
+                env[k] = ("undef",)
+            else:
+                env[k] = mk_cond(t, va, vb)
+        return _FALLTHROUGH
+
+    @staticmethod
+    def same(a, b):
+        if isinstance(a, (Arr, ListObj)) or isinstance(b, (Arr, ListObj)):
+            return a is b
+        try:
+            return a == b
+        except Exception:
+            return False
+
+    def for_(self, st, env):
+        if st.orelse:
+            raise Unsupported("for/else")
+        it = st.iter
+        if not (isinstance(it, ast.Call) and isinstance(it.func, ast.Name) and not it.keywords):
+            raise Unsupported("loop over " + _u(it))
+        self.nloop += 1
+        lv = ("loop", self.nloop)
+        if it.func.id == "range" and len(it.args) == 1 and isinstance(st.target, ast.Name):
+            bound = self.atomise(self.ev(it.args[0], env), it)
+            binds = {st.target.id: lin(lv)}
+        elif it.func.id == "enumerate" and len(it.args) == 1 and isinstance(st.target, ast.Tuple) \
+                and len(st.target.elts) == 2 and all(isinstance(x, ast.Name) for x in st.target.elts):
+            seq = self.ev(it.args[0], env)
+            bound = lin(("len", seq))
+            binds = {st.target.elts[0].id: lin(lv),
+                     st.target.elts[1].id: ("sub", seq, (("at", lin(lv)),), 0)}
+        else:
+            raise Unsupported("loop header: " + _u(st.target) + " in " + _u(it))
+        assigned = set()
+        for n in ast.walk(ast.Module(body=st.body, type_ignores=[])):
+            if isinstance(n, ast.Name) and isinstance(n.ctx, ast.Store):
+                assigned.add(n.id)
+            if isinstance(n, (ast.Break, ast.Continue, ast.While, ast.Return, ast.Raise, ast.Try,
+                              ast.With)):
+                raise Unsupported("%s inside a loop" % type(n).__name__)
+        assigned -= set(binds)
+        benv = dict(env)
+        benv.update(binds)
+        self.loops.append((lv, bound))
+        self.loopsets.append((assigned, set()))
+        try:
+            r = self.block(st.body, benv)
+        finally:
+            self.loops.pop()
+            self.loopsets.pop()
+        if r is not None:
+            raise Unsupported("return inside a loop")
+        for n in assigned | set(binds):
+            env[n] = ("undef",)
 
 
-def _body(fn):
-    b = list(fn.body)
-    if b and isinstance(b[0], ast.Expr) and isinstance(getattr(b[0], "value", None), ast.Constant) \
-            and isinstance(b[0].value.value, str):
-        b = b[1:]
-    return b
+_FALLTHROUGH = object()
 
 
-def _assign(st, target):
-    _need(isinstance(st, ast.Assign) and len(st.targets) == 1 and _u(st.targets[0]) == target,
-          "expected assignment to " + target, st)
-    return st.value
+# ------------------------------------------------------------------------------------------------
+# reading facts off symbolic values
 
 
-def _is_full(s):
-    return isinstance(s, ast.Slice) and s.lower is None and s.upper is None and s.step is None
+def _need(cond, what, v=None):
+    if not cond:
+        raise Unsupported(what + ("" if v is None else ": %s" % (_show(v),)))
 
 
-def _subscript3(e, base):
-    _need(isinstance(e, ast.Subscript) and _u(e.value) == base and isinstance(e.slice, ast.Tuple)
-          and len(e.slice.elts) == 3, "expected %s[a, b, c]" % base, e)
-    return e.slice.elts
+def _show(v, depth=0):
+    if depth > 6:
+        return "..."
+    if isinstance(v, Arr):
+        return "zeros%s{%s}" % (_show(("tuple",) + v.shape, depth + 1),
+                                "; ".join("%s%s[%s] <- %s" % (
+                                    "if %s: " % _show(g, depth + 1) if g else "",
+                                    "for %s<%s: " % (l[0][0], _show(l[0][1], depth + 1)) if l else "",
+                                    _show(ix, depth + 1), _show(x, depth + 1))
+                                    for g, l, ix, x in v.writes))
+    if isinstance(v, Lin):
+        parts = ["%s%s" % ("" if k == 1 else "%d*" % k, a if isinstance(a, str) else _show(a, depth + 1))
+                 for a, k in sorted(v.t.items(), key=lambda x: repr(x[0]))]
+        if v.c or not parts:
+            parts.append(str(v.c))
+        return "+".join(parts)
+    if isinstance(v, tuple):
+        return "(" + " ".join(_show(x, depth + 1) for x in v) + ")"
+    return repr(v) if not isinstance(v, str) else v
 
 
-ENV = {"window_length": "wl", "fh_max": "fm", "n_timepoints": "n", "effective_window_length": "e",
-       "k": "k", "fh": "h", "i": "i", "self.window_length_": "wl"}
+def _is(v, tag, n=None):
+    return isinstance(v, tuple) and len(v) > 0 and v[0] == tag and (n is None or len(v) == n)
 
 
-def _swt(mod, defs):
-    fn = _find(mod, "_sliding_window_transform")
-    args = [a.arg for a in fn.args.args]
-    _need(args == ["y", "window_length", "fh", "X", "scitype"], "signature of _sliding_window_transform")
-    b = _body(fn)
-    _need(len(b) == 13, "_sliding_window_transform has %d statements, expected 13" % len(b))
-    _need(_u(_assign(b[0], "window_length")) == "check_window_length(window_length)", "stmt 1", b[0])
-    _need(_u(_assign(b[1], "z")) == "_concat_y_X(y, X)", "stmt 2", b[1])
-    _need(_u(_assign(b[2], "(n_timepoints, n_variables)")) == "z.shape", "stmt 3", b[2])
-    _need(_u(_assign(b[3], "fh")) == "_check_fh(fh)", "stmt 4", b[3])
-    _need(_u(_assign(b[4], "fh_max")) == "fh[-1]", "stmt 5", b[4])
-    st = b[5]
-    _need(isinstance(st, ast.If) and not st.orelse and len(st.body) == 1
-          and isinstance(st.body[0], ast.Raise) and _u(st.body[0].exc).startswith("ValueError("),
-          "stmt 6: rejection", st)
-    defs.append(("gen_reject", "wl fm n", "bool", _cmp(st.test, ENV)))
-    defs.append(("gen_ewl", "wl fm", "Z", _expr(_assign(b[6], "effective_window_length"), ENV)))
-    z = _assign(b[7], "Zt")
-    _need(isinstance(z, ast.Call) and _u(z.func) == "np.zeros" and len(z.args) == 1 and not z.keywords
-          and isinstance(z.args[0], ast.Tuple) and len(z.args[0].elts) == 3
-          and _u(z.args[0].elts[1]) == "n_variables", "stmt 8: np.zeros((rows, n_variables, cols))", b[7])
-    defs.append(("gen_alloc_rows", "n e", "Z", _expr(z.args[0].elts[0], ENV)))
-    defs.append(("gen_alloc_cols", "e", "Z", _expr(z.args[0].elts[2], ENV)))
-    lp = b[8]
-    _need(isinstance(lp, ast.For) and _u(lp.target) == "k" and not lp.orelse
-          and isinstance(lp.iter, ast.Call) and _u(lp.iter.func) == "range" and len(lp.iter.args) == 1
-          and len(lp.body) == 3, "stmt 9: for k in range(...) with 3 statements", lp)
-    defs.append(("gen_nk", "e", "Z", _expr(lp.iter.args[0], ENV)))
-    defs.append(("gen_i", "e k", "Z", _expr(_assign(lp.body[0], "i"), ENV)))
-    defs.append(("gen_j", "n e k", "Z", _expr(_assign(lp.body[1], "j"), ENV)))
-    _need(isinstance(lp.body[2], ast.Assign) and len(lp.body[2].targets) == 1
-          and _u(lp.body[2].value) == "z", "fill statement assigns z", lp.body[2])
-    s0, s1, s2 = _subscript3(lp.body[2].targets[0], "Zt")
-    _need(isinstance(s0, ast.Slice) and s0.step is None and _u(s0.lower) == "i" and _u(s0.upper) == "j"
-          and _is_full(s1) and _u(s2) == "k", "fill statement is Zt[i:j, :, k] = z", lp.body[2])
-    t = _assign(b[9], "Zt")
-    _need(isinstance(t, ast.Subscript) and _u(t.value) == "Zt" and isinstance(t.slice, ast.Slice)
-          and t.slice.step is None and t.slice.lower is not None
-          and isinstance(t.slice.upper, ast.UnaryOp) and isinstance(t.slice.upper.op, ast.USub),
-          "stmt 10: Zt = Zt[lo:-hi]", b[9])
-    defs.append(("gen_trunc_lo", "e", "Z", _expr(t.slice.lower, ENV)))
-    defs.append(("gen_trunc_hi", "e", "Z", _expr(t.slice.upper.operand, ENV)))
-    s0, s1, s2 = _subscript3(_assign(b[10], "yt"), "Zt")
-    _need(_is_full(s0) and _u(s1) == "0", "stmt 11: yt = Zt[:, 0, cols]", b[10])
-    defs.append(("gen_tgt_col", "wl h", "Z", _expr(s2, ENV)))          # broadcast over the indexer
-    s0, s1, s2 = _subscript3(_assign(b[11], "Xt"), "Zt")
-    _need(_is_full(s0) and _is_full(s1) and isinstance(s2, ast.Slice) and s2.lower is None
-          and s2.step is None and s2.upper is not None, "stmt 12: Xt = Zt[:, :, :hi]", b[11])
-    defs.append(("gen_feat_hi", "wl", "Z", _expr(s2.upper, ENV)))
-    r = b[12]
-    _need(isinstance(r, ast.If) and _u(r.test) == "scitype == 'tabular-regressor'"
-          and len(r.body) == 1 and len(r.orelse) == 1
-          and _u(r.body[0]) == "return (yt, Xt.reshape(Xt.shape[0], -1))"
-          and _u(r.orelse[0]) == "return (yt, Xt)", "stmt 13: tabular reshape / panel return", r)
-    # the helpers the transform relies on
-    cf = _body(_find(mod, "_check_fh"))
-    _need(len(cf) == 3 and _u(cf[0]) == "assert fh.is_relative"
-          and _u(cf[1]) == "assert fh.is_all_out_of_sample()"
-          and _u(cf[2]) == "return fh.to_indexer().to_numpy()", "_check_fh body")
-    cc = _body(_find(mod, "_concat_y_X"))
-    _need(len(cc) == 4 and _u(cc[0]) == "z = y.to_numpy()"
-          and _u(cc[2]).replace("\n", " ") ==
-          "if X is not None:     z = np.column_stack([z, X.to_numpy()])"
-          and _u(cc[3]) == "return z", "_concat_y_X body (y first, then the columns of X)")
+def _peel_asserts(v, asserts):
+    """result of a function with leading asserts: cond(t, rest, raise AssertionError)"""
+    while _is(v, "cond", 4) and v[3] == ("raise", "AssertionError"):
+        asserts.append(v[1])
+        v = v[2]
+    return v
 
 
-def _unique_stmt(fn, pred, what):
-    hits = [n for n in ast.walk(fn) if isinstance(n, ast.stmt) and pred(n)]
-    _need(len(hits) == 1, "%s: expected exactly one site, found %d" % (what, len(hits)))
-    return hits[0]
+def _lin_in(v, allowed, what, rename=None):
+    _need(isinstance(v, Lin), what + " is not an integer expression", v)
+    if rename:
+        v = v.subst(rename)
+    bad = [a for a in v.atoms() if a not in allowed]
+    _need(not bad, what + " depends on %s" % ", ".join(_show(b) for b in bad), v)
+    return v
 
 
-def _strategies(mod, defs):
-    # recursive: X_pred = last[:, :, i:window_length + i]; last[:, 0, window_length + i] = y_pred[i]
-    fn = _find(mod, "_RecursiveReducer._predict_last_window")
-    st = _unique_stmt(fn, lambda n: isinstance(n, ast.Assign) and _u(n.targets[0]) == "X_pred"
-                      and _u(n.value).startswith("last["), "recursive window slice")
-    s0, s1, s2 = _subscript3(st.value, "last")
-    _need(_is_full(s0) and _is_full(s1) and isinstance(s2, ast.Slice) and s2.step is None
-          and s2.lower is not None and s2.upper is not None, "X_pred = last[:, :, lo:hi]", st)
-    defs.append(("gen_rec_lo", "wl i", "Z", _expr(s2.lower, ENV)))
-    defs.append(("gen_rec_hi", "wl i", "Z", _expr(s2.upper, ENV)))
-    st = _unique_stmt(fn, lambda n: isinstance(n, ast.Assign) and _u(n.targets[0]).startswith("last[")
-                      and _u(n.value) == "y_pred[i]", "recursive feedback")
-    s0, s1, s2 = _subscript3(st.targets[0], "last")
-    _need(_is_full(s0) and _u(s1) == "0", "last[:, 0, pos] = y_pred[i]", st)
-    defs.append(("gen_rec_fb", "wl i", "Z", _expr(s2, ENV)))
-    _unique_stmt(fn, lambda n: isinstance(n, ast.For) and _u(n.target) == "i"
-                 and _u(n.iter) == "range(fh_max)", "recursive loop over range(fh_max)")
-    _unique_stmt(fn, lambda n: isinstance(n, ast.Assign) and _u(n) == "window_length = self.window_length_",
-                 "recursive window_length")
-    _unique_stmt(fn, lambda n: isinstance(n, ast.Return) and _u(n) == "return y_pred[fh_idx]",
-                 "recursive selection y_pred[fh_idx]")
-    _unique_stmt(fn, lambda n: isinstance(n, ast.Assign) and _u(n) == "fh_idx = fh.to_indexer(self.cutoff)",
-                 "recursive fh_idx")
-    # dirrec: X_pred = X_full[:, :, :window_length + i]; X_full[:, :, window_length + i] = y_pred[i]
-    fn = _find(mod, "_DirRecReducer._predict_last_window")
-    st = _unique_stmt(fn, lambda n: isinstance(n, ast.Assign) and _u(n.targets[0]) == "X_pred"
-                      and _u(n.value).startswith("X_full["), "dirrec window slice")
-    s0, s1, s2 = _subscript3(st.value, "X_full")
-    _need(_is_full(s0) and _is_full(s1) and isinstance(s2, ast.Slice) and s2.step is None
-          and s2.lower is None and s2.upper is not None, "X_pred = X_full[:, :, :hi]", st)
-    defs.append(("gen_dr_hi", "wl i", "Z", _expr(s2.upper, ENV)))
-    st = _unique_stmt(fn, lambda n: isinstance(n, ast.Assign) and _u(n.targets[0]).startswith("X_full[")
-                      and _u(n.value) == "y_pred[i]", "dirrec feedback")
-    s0, s1, s2 = _subscript3(st.targets[0], "X_full")
-    _need(_is_full(s0) and _is_full(s1), "X_full[:, :, pos] = y_pred[i]", st)
-    defs.append(("gen_dr_fb", "wl i", "Z", _expr(s2, ENV)))
-    _unique_stmt(fn, lambda n: isinstance(n, ast.Assign) and _u(n) == "window_length = self.window_length_",
-                 "dirrec window_length")
-    # dirrec fit: X_fit = X_full[:, :, :n_timepoints + i] with n_timepoints = Xt.shape[2]
-    fn = _find(mod, "_DirRecReducer._fit")
-    st = _unique_stmt(fn, lambda n: isinstance(n, ast.Assign) and _u(n.targets[0]) == "X_fit"
-                      and _u(n.value).startswith("X_full["), "dirrec fit slice")
-    s0, s1, s2 = _subscript3(st.value, "X_full")
-    _need(_is_full(s0) and _is_full(s1) and isinstance(s2, ast.Slice) and s2.step is None
-          and s2.lower is None and s2.upper is not None, "X_fit = X_full[:, :, :hi]", st)
-    defs.append(("gen_dr_fit_hi", "wl i", "Z", _expr(s2.upper, dict(ENV, n_timepoints="wl"))))
-    _unique_stmt(fn, lambda n: isinstance(n, ast.Assign) and _u(n) == "n_timepoints = Xt.shape[2]",
-                 "dirrec n_timepoints = Xt.shape[2]")
-    _unique_stmt(fn, lambda n: isinstance(n, ast.Assign)
-                 and _u(n) == "X_full = np.concatenate([Xt, np.expand_dims(yt, axis=1)], axis=2)",
-                 "dirrec X_full concatenation")
+def _gallina(v):
+    parts = ["(%d * %s)" % (k, a) for a, k in sorted(v.t.items())]
+    parts.append("(%d)" % v.c)
+    return "(" + " + ".join(parts) + ")"
 
 
-def _loc_bounds(e, base, what):
-    """`<base>.loc[lo:hi].to_numpy()` -> (lo, hi) ast nodes; anything else (e.g. .iloc, a
-    positional tail) is not recognised"""
-    _need(isinstance(e, ast.Call) and not e.args and not e.keywords
-          and isinstance(e.func, ast.Attribute) and e.func.attr == "to_numpy", what, e)
-    sub = e.func.value
-    _need(isinstance(sub, ast.Subscript) and isinstance(sub.value, ast.Attribute)
-          and sub.value.attr == "loc" and _u(sub.value.value) == base
-          and isinstance(sub.slice, ast.Slice) and sub.slice.step is None
-          and sub.slice.lower is not None and sub.slice.upper is not None,
-          what + ": expected a label-based slice %s.loc[lo:hi]" % base, e)
-    return sub.slice.lower, sub.slice.upper
+def _cond_reshape(v, test_ok, what):
+    """`X.reshape(rows, -1)` when the scitype is tabular, X otherwise (if/else, conditional
+    expression or guard form); returns (X, rows)"""
+    _need(_is(v, "cond", 4) and test_ok(v[1]), what + ": expected a reshape under the tabular scitype", v)
+    r, x = v[2], v[3]
+    _need(_is(r, "mcall", 5) and r[2] == "reshape" and not r[4] and len(r[3]) == 2
+          and r[3][1] == lin(-1), what + ": expected X.reshape(rows, -1)", r)
+    _need(r[1] is x or (not isinstance(x, Arr) and r[1] == x), what + ": reshape of another array", v)
+    return x, r[3][0]
 
 
-def _lw_shape(fn, owner):
-    """the label-based last window: returns (shift, lo, hi) as Gallina expressions in wl and c"""
-    b = _body(fn)
-    args = [a.arg for a in fn.args.args]
-    _need(args == ["self"] and not fn.decorator_list, "%s._get_last_window signature" % owner)
-    _need(len(b) == 5, "%s._get_last_window has %d statements, expected 5" % (owner, len(b)))
-    _need(_u(b[0]) == "cutoff = self.cutoff", "stmt 1", b[0])
-    v = _assign(b[1], "start")
-    _need(isinstance(v, ast.Call) and _u(v.func) == "_shift" and len(v.args) == 1
-          and _u(v.args[0]) == "cutoff" and len(v.keywords) == 1 and v.keywords[0].arg == "by",
-          "start = _shift(cutoff, by=...)", b[1])
-    shift = _expr(v.keywords[0].value, ENV)
-    env = {"cutoff": "c", "start": "(c + %s)" % shift}      # _shift(x, by) = x + by on integers
-    lo, hi = _loc_bounds(_assign(b[2], "y"), "self._y", "stmt 3 (window of y)")
-    glo, ghi = _expr(lo, env), _expr(hi, env)
-    x = _assign(b[3], "X")
-    _need(isinstance(x, ast.IfExp) and _u(x.test) == "self._X is not None" and _u(x.orelse) == "None",
-          "stmt 4 (window of X)", b[3])
-    xlo, xhi = _loc_bounds(x.body, "self._X", "stmt 4 (window of X)")
-    _need(_expr(xlo, env) == glo and _expr(xhi, env) == ghi,
-          "stmt 4: X is sliced with other bounds than y", b[3])
-    _need(_u(b[4]) == "return (y, X)", "stmt 5", b[4])
-    return shift, glo, ghi
+def _tab_self(t):
+    return t == ("cmp", "==", ("attr", ("name", "self"), "_estimator_scitype"), ("str", "tabular-regressor"))
 
 
-REDUCER_PREDICTS = {
-    "_DirectReducer": ["X_pred[:, 0, :] = y_last", "X_pred[:, 1:, :] = X_last.T"],
-    "_MultioutputReducer": ["X_pred[:, 0, :] = y_last", "X_pred[:, 1:, :] = X_last.T"],
-    "_RecursiveReducer": ["last[:, 0, :window_length] = y_last", "last[:, 1:, :window_length] = X_last.T",
-                          "last[:, 1:, window_length:] = X.T"],
-    "_DirRecReducer": ["X_full[:, 0, :window_length] = y_last"],
-}
+def _slice(ix, what):
+    _need(_is(ix, "slice", 3), what + ": expected a slice", ix)
+    return ix[1], ix[2]
+
+
+FULL = ("full",)
+SELF = ("name", "self")
+
+
+def NP(f, *args, **kw):
+    return ("mcall", ("name", "np"), f, tuple(args), tuple(sorted(kw.items())))
+
+
+def aslin(v):
+    return v if isinstance(v, Lin) else lin(v)
+
+
+def _swt(world, defs):
+    fn = world.funcs[("reduce", "_sliding_window_transform")]
+    params = [a.arg for a in fn.args.args]
+    _need(params == ["y", "window_length", "fh", "X", "scitype"], "signature of _sliding_window_transform")
+    it = Interp(world, "reduce")
+    res = it.block(it.body(fn), {})
+    _need(res is not None, "_sliding_window_transform returns nothing")
+    asserts = []
+    # the helpers' asserts come first (whatever the order among themselves)
+    res = _peel_asserts(res, asserts)
+    fh0 = ("name", "fh")
+    want = {("attr", fh0, "is_relative"), ("mcall", fh0, "is_all_out_of_sample", (), ())}
+    _need(set(asserts) == want, "_check_fh must assert fh.is_relative and fh.is_all_out_of_sample()",
+          ("tuple",) + tuple(asserts))
+    # rejection: cond(test, raise ValueError, (yt, Xt))
+    _need(_is(res, "cond", 4), "no rejection test", res)
+    t, a, b = res[1:]
+    if _is(b, "raise"):
+        t, a, b = mk_not(t), b, a
+    _need(a == ("raise", "ValueError") and _is(b, "tuple", 3), "rejection must raise ValueError and "
+          "the function must return (yt, Xt)", res)
+    neg = False
+    if _is(t, "not", 2):
+        neg, t = True, t[1]
+    _need(_is(t, "cmp", 4), "rejection test is not a comparison", t)
+    # base symbols: wl = check_window_length(window_length); the indexer array h with last element fm;
+    # n = rows of z
+    wl_atom = ("call", ("name", "check_window_length"), (("name", "window_length"),), ())
+    fhi = ("mcall", ("mcall", fh0, "to_indexer", (), ()), "to_numpy", (), ())
+    fm_atom = ("sub", fhi, (("at", lin(-1)),), 0)
+    yv = ("mcall", ("name", "y"), "to_numpy", (), ())
+    y2 = ("cond", ("cmp", "==", lin(("attr", yv, "ndim")), lin(1)),
+          ("mcall", yv, "reshape", (lin(-1), lin(1)), ()), yv)
+    zv = ("cond", ("isnone", ("name", "X")), y2,
+          NP("column_stack", ("list", y2, ("mcall", ("name", "X"), "to_numpy", (), ()))))
+    n_atom = ("sub", ("attr", zv, "shape"), (("at", lin(0)),), 0)
+    nv_atom = ("sub", ("attr", zv, "shape"), (("at", lin(1)),), 0)
+    ren = {wl_atom: "wl", fm_atom: "fm", n_atom: "n", fhi: "h"}
+    ops = {">": ">?", ">=": ">=?", "<": "<?", "<=": "<=?", "==": "=?"}
+    lhs = _lin_in(t[2], {"wl", "fm", "n"}, "rejection test (lhs)", ren)
+    rhs = _lin_in(t[3], {"wl", "fm", "n"}, "rejection test (rhs)", ren)
+    cmp = "(%s %s %s)" % (_gallina(lhs), ops[t[1]], _gallina(rhs))
+    defs.append(("gen_reject", "wl fm n", "bool", "(negb %s)" % cmp if neg else cmp))
+    yt, xt = b[1], b[2]
+    # Xt: reshape(rows, -1) iff tabular
+    X3, rows = _cond_reshape(
+        xt, lambda c: c == ("cmp", "==", ("name", "scitype"), ("str", "tabular-regressor")), "returned Xt")
+    _need(_is(X3, "sub", 4) and len(X3[2]) == 3 and X3[2][0] == FULL and X3[2][1] == FULL,
+          "Xt must be Zt[:, :, :hi]", X3)
+    flo, fhi_ = _slice(X3[2][2], "feature columns")
+    _need(flo is None or flo == lin(0), "feature columns must start at 0", X3)
+    ZT = X3[1]
+    _need(aslin(rows) == lin(("sub", ("attr", X3, "shape"), (("at", lin(0)),), 0)),
+          "tabular reshape must keep the rows of Xt", rows)
+    defs.append(("gen_feat_hi", "wl", "Z", _gallina(_lin_in(fhi_, {"wl"}, "feature columns", ren))))
+    # yt = Zt[:, 0, wl + fh]
+    _need(_is(yt, "sub", 4) and len(yt[2]) == 3 and yt[2][0] == FULL and yt[2][1] == ("at", lin(0))
+          and yt[2][2][0] == "at", "yt must be Zt[:, 0, columns]", yt)
+    _need(yt[1] == ZT, "yt and Xt are cut from different arrays", yt)
+    tc = _lin_in(yt[2][2][1], {"wl", "h"}, "target columns", ren)
+    _need(tc.t.get("h") == 1, "target columns must be an offset of the horizon indexer", tc)
+    defs.append(("gen_tgt_col", "wl h", "Z", _gallina(tc)))
+    # Zt = Z0[lo:stop] on the first axis
+    _need(_is(ZT, "sub", 4) and len(ZT[2]) == 1 and isinstance(ZT[1], Arr), "truncation Zt[lo:hi]", ZT)
+    Z0 = ZT[1]
+    _need(ZT[3] == len(Z0.writes) == 1, "the array must be truncated after it has been filled", ZT)
+    tlo, thi = _slice(ZT[2][0], "truncation")
+    _need(tlo is not None and thi is not None, "truncation needs both bounds", ZT)
+    _need(len(Z0.shape) == 3 and Z0.shape[1] == lin(nv_atom) and not Z0.birth_loops,
+          "np.zeros((rows, n_variables, columns))", Z0)
+    R = _lin_in(Z0.shape[0], {"wl", "fm", "n"}, "allocated rows", ren)
+    C = _lin_in(Z0.shape[2], {"wl", "fm"}, "allocated columns", ren)
+    defs.append(("gen_alloc_rows", "wl fm n", "Z", _gallina(R)))
+    defs.append(("gen_alloc_cols", "wl fm", "Z", _gallina(C)))
+    defs.append(("gen_trunc_lo", "wl fm", "Z", _gallina(_lin_in(tlo, {"wl", "fm"}, "truncation start", ren))))
+    stop = _lin_in(thi, {"wl", "fm", "n"}, "truncation stop", ren)
+    coeffs = list(stop.t.values()) + [stop.c]
+    if all(k <= 0 for k in coeffs) and any(k < 0 for k in coeffs):
+        stop = R.add(stop)                 # a negative stop counts from the end of the axis
+    else:
+        _need(all(k >= 0 for k in coeffs), "cannot tell whether the truncation stop counts from the end", stop)
+    defs.append(("gen_trunc_stop", "wl fm n", "Z", _gallina(stop)))
+    # the fill: for k in range(K): Z0[i:j, :, k] = z
+    (g, lp, ix, val), = Z0.writes
+    _need(not g and len(lp) == 1, "the fill must be one unconditional loop", Z0)
+    kv, K = lp[0]
+    rk = dict(ren)
+    rk[kv] = "k"
+    defs.append(("gen_nk", "wl fm", "Z", _gallina(_lin_in(K, {"wl", "fm"}, "loop bound", ren))))
+    _need(len(ix) == 3 and ix[1] == FULL and ix[2] == ("at", lin(kv)), "fill Zt[i:j, :, k] = z", Z0)
+    i_, j_ = _slice(ix[0], "filled rows")
+    _need(i_ is not None and j_ is not None, "fill needs both row bounds", Z0)
+    defs.append(("gen_i", "wl fm k", "Z", _gallina(_lin_in(i_, {"wl", "fm", "k"}, "fill start", rk))))
+    defs.append(("gen_j", "wl fm n k", "Z", _gallina(_lin_in(j_, {"wl", "fm", "n", "k"}, "fill stop", rk))))
+    _need(val == zv, "the fill writes something else than _concat_y_X(y, X) (y first, then the columns of X)",
+          val)
+    _need(not it.effects, "_sliding_window_transform has side effects")
+
+
+def _window_value(cls):
+    """what `self._get_last_window()` evaluates to (checked separately in _last_window)"""
+    return cls
+
+
+def _predicts(world, defs, lw):
+    """the four _predict_last_window: the value handed to estimator.predict and what is returned"""
+    y_last, X_last = lw
+    XT = ("attr", X_last, "T")
+    wl = ("attr", SELF, "window_length_")
+    cut = lin(("attr", SELF, "cutoff"))
+    selfX = ("attr", SELF, "_X")
+    used = {}
+
+    def run(cname, params):
+        hit = world.method(cname, "_predict_last_window")
+        _need(hit is not None and hit[0] == cname, "%s._predict_last_window missing" % cname)
+        fn = hit[2]
+        _need([a.arg for a in fn.args.args] == params, "%s._predict_last_window signature" % cname)
+        it = Interp(world, hit[1], cls=cname, opaque_funcs=("_sliding_window_transform",))
+        env = {p: ("name", p) for p in params}
+        res = it.block(it.body(fn), env)
+        used[cname] = set(n for c, n in it.inlined)
+        return it, res
+
+    def predictable_guard(res, what):
+        """cond(not predictable(y_last), nan(fh), rest) -> rest"""
+        _need(_is(res, "cond", 4), what + ": no _is_predictable guard", res)
+        t, a, b = res[1:]
+        ok = ("and", ("cmp", "==", lin(("len", y_last)), lin(wl)),
+              ("cmp", "==", lin(NP("sum", NP("isnan", y_last))), lin(0)),
+              ("cmp", "==", lin(NP("sum", NP("isinf", y_last))), lin(0)))
+        nan = NP("full", lin(("len", ("name", "fh"))), ("attr", ("name", "np"), "nan"))
+        _need(t == ok and b == nan, what + ": the NaN answer must be given exactly when the window "
+              "handed over by _get_last_window is not usable", res)
+        return a
+
+    def ncols(v, src, what):
+        want = mk_cond(("isnone", src), lin(1), lin(("sub", ("attr", src, "shape"), (("at", lin(1)),), 0)).add(lin(1)))
+        _need(v == want, what + ": number of variables", v)
+
+    def window_array(A, what):
+        """np.zeros((1, n_columns, wl)) <- y_last at [:, 0, :], X_last.T at [:, 1:, :] if self._X"""
+        _need(isinstance(A, Arr) and len(A.shape) == 3 and A.shape[0] == lin(1)
+              and A.shape[2] == lin(wl), what + ": window array", A)
+        ncols(A.shape[1], selfX, what)
+        _need(len(A.writes) == 2, what + ": expected the two fills", A)
+        w = sorted(A.writes, key=lambda x: len(x[0]))
+        _need(w[0] == ((), (), (FULL, ("at", lin(0)), FULL), y_last), what + ": X_pred[:, 0, :] = y_last", A)
+        _need(w[1] == ((mk_not(("isnone", selfX)),), (), (FULL, ("slice", lin(1), None), FULL), XT),
+              what + ": X_pred[:, 1:, :] = X_last.T when X was given in fit", A)
+
+    def pred_input(v, what):
+        x, rows = _cond_reshape(v, _tab_self, what)
+        _need(aslin(rows) == lin(1), what + ": reshape(1, -1)", v)
+        return x
+
+    # --- direct
+    it, res = run("_DirectReducer", ["self", "fh", "X", "return_pred_int", "alpha"])
+    yp = predictable_guard(res, "direct")
+    _need(isinstance(yp, Arr) and yp.shape == (lin(("len", ("name", "fh"))),) and len(yp.writes) == 1,
+          "direct: y_pred = np.zeros(len(fh)) filled by one loop", yp)
+    (g, lp, ix, val), = yp.writes
+    # one regressor is fitted per step of self.fh: both counts name the same loop
+    nsteps = (lin(("len", ("attr", SELF, "estimators_"))), lin(("len", ("attr", SELF, "fh"))))
+    _need(not g and len(lp) == 1 and lp[0][1] in nsteps
+          and ix == (("at", lin(lp[0][0])),), "direct: y_pred[i] for every fitted estimator", yp)
+    _need(_is(val, "mcall", 5) and val[2] == "predict" and len(val[3]) == 1 and not val[4]
+          and val[1] == ("sub", ("attr", SELF, "estimators_"), (("at", lin(lp[0][0])),), 0),
+          "direct: y_pred[i] = estimators_[i].predict(X_pred)", val)
+    A = pred_input(val[3][0], "direct predict input")
+    window_array(A, "direct")
+    _need([e[0] for e in it.effects] == ["predict"], "direct: unexpected side effects", tuple(e[0] for e in it.effects))
+
+    # --- multioutput
+    it, res = run("_MultioutputReducer", ["self", "fh", "X", "return_pred_int", "alpha"])
+    yp = predictable_guard(res, "multioutput")
+    _need(_is(yp, "mcall", 5) and yp[2] == "ravel" and not yp[3] and _is(yp[1], "mcall", 5)
+          and yp[1][2] == "predict" and yp[1][1] == ("attr", SELF, "estimator_") and len(yp[1][3]) == 1,
+          "multioutput: return estimator_.predict(X_pred).ravel()", yp)
+    window_array(pred_input(yp[1][3][0], "multioutput predict input"), "multioutput")
+    _need([e[0] for e in it.effects] == ["predict"], "multioutput: unexpected side effects")
+
+    # --- recursive
+    it, res = run("_RecursiveReducer", ["self", "fh", "X", "return_pred_int", "alpha"])
+    Xp = ("name", "X")
+    _need(_is(res, "cond", 4) and res[1] == ("and", mk_not(("isnone", selfX)), ("isnone", Xp))
+          and res[2] == ("raise", "ValueError"), "recursive: X must be passed if given in fit", res)
+    yp = predictable_guard(res[3], "recursive")
+    fm_atom = ("sub", ("mcall", ("name", "fh"), "to_relative", (cut,), ()), (("at", lin(-1)),), 0)
+    fhidx = ("mcall", ("name", "fh"), "to_indexer", (cut,), ())
+    _need(_is(yp, "sub", 4) and yp[2] == (("at", fhidx),) and isinstance(yp[1], Arr),
+          "recursive: return y_pred[fh.to_indexer(self.cutoff)]", yp)
+    Y = yp[1]
+    _need(Y.shape == (lin(fm_atom),) and len(Y.writes) == 1 and yp[3] == 1,
+          "recursive: y_pred = np.zeros(fh_max) filled by the loop before it is returned", Y)
+    (g, lp, ix, val), = Y.writes
+    _need(not g and len(lp) == 1 and lp[0][1] == lin(fm_atom) and ix == (("at", lin(lp[0][0])),),
+          "recursive: one step per i in range(fh_max)", Y)
+    iv = lp[0][0]
+    ren = {wl: "wl", fm_atom: "fm", iv: "i"}
+    _need(_is(val, "mcall", 5) and val[2] == "predict" and val[1] == ("attr", SELF, "estimator_")
+          and len(val[3]) == 1, "recursive: y_pred[i] = estimator_.predict(X_pred)", val)
+    S = pred_input(val[3][0], "recursive predict input")
+    _need(_is(S, "sub", 4) and isinstance(S[1], Arr) and len(S[2]) == 3 and S[2][0] == FULL
+          and S[2][1] == FULL, "recursive: X_pred = last[:, :, lo:hi]", S)
+    L = S[1]
+    lo, hi = _slice(S[2][2], "recursive window")
+    defs.append(("gen_rec_lo", "wl i", "Z", _gallina(_lin_in(lo if lo is not None else lin(0), {"wl", "i"},
+                                                              "recursive window start", ren))))
+    defs.append(("gen_rec_hi", "wl i", "Z", _gallina(_lin_in(hi, {"wl", "i"}, "recursive window stop", ren))))
+    _need(len(L.shape) == 3 and L.shape[0] == lin(1), "recursive: last = np.zeros((1, n_columns, len))", L)
+    ncols(L.shape[1], Xp, "recursive")
+    defs.append(("gen_rec_buf", "wl fm", "Z", _gallina(_lin_in(L.shape[2], {"wl", "fm"}, "recursive buffer length", ren))))
+    gx = (mk_not(("isnone", Xp)),)
+    fills = [w for w in L.writes if not w[1]]
+    fb = [w for w in L.writes if w[1]]
+    _need(len(fills) == 3 and len(fb) == 1 and S[3] == 3 and L.writes.index(fb[0]) == 3,
+          "recursive: three fills before the loop, the window is read before the feedback is written", L)
+    want = [((), (), (FULL, ("at", lin(0)), ("slice", None, lin(wl))), y_last),
+            (gx, (), (FULL, ("slice", lin(1), None), ("slice", None, lin(wl))), XT),
+            (gx, (), (FULL, ("slice", lin(1), None), ("slice", lin(wl), None)), ("attr", Xp, "T"))]
+    norm = [(w[0], w[1], tuple(("slice", None, i[2]) if _is(i, "slice", 3) and i[1] == lin(0) else i
+                               for i in w[2]), w[3]) for w in fills]
+    for wnt in want:
+        _need(wnt in norm, "recursive: fill %s missing" % _show(wnt), L)
+    g, lp2, ix, v = fb[0]
+    _need(not g and lp2 == lp and len(ix) == 3 and ix[0] == FULL and ix[1] == ("at", lin(0))
+          and ix[2][0] == "at" and v == ("sub", Y, (("at", lin(iv)),), 1),
+          "recursive: last[:, 0, pos] = y_pred[i] after the prediction of step i", fb[0][2:])
+    defs.append(("gen_rec_fb", "wl i", "Z", _gallina(_lin_in(ix[2][1], {"wl", "i"}, "recursive feedback position", ren))))
+    _need([e[0] for e in it.effects] == ["predict"], "recursive: unexpected side effects")
+
+    # --- dirrec
+    it, res = run("_DirRecReducer", ["self", "fh", "X", "return_pred_int", "alpha"])
+    _need(_is(res, "cond", 4) and res[1] == ("isnone", Xp) and res[3] == ("raise", "NotImplementedError"),
+          "dirrec: exogenous X refused", res)
+    Y = predictable_guard(res[2], "dirrec")
+    q = ("len", ("attr", SELF, "fh"))
+    _need(isinstance(Y, Arr) and Y.shape == (lin(("len", ("name", "fh"))),) and len(Y.writes) == 1,
+          "dirrec: y_pred = np.zeros(len(fh)) filled by one loop", Y)
+    (g, lp, ix, val), = Y.writes
+    _need(not g and len(lp) == 1 and lp[0][1] in nsteps and ix == (("at", lin(lp[0][0])),),
+          "dirrec: one step per fitted estimator / step of self.fh", Y)
+    iv = lp[0][0]
+    ren = {wl: "wl", q: "q", iv: "i"}
+    _need(_is(val, "mcall", 5) and val[2] == "predict" and len(val[3]) == 1
+          and val[1] == ("sub", ("attr", SELF, "estimators_"), (("at", lin(iv)),), 0),
+          "dirrec: y_pred[i] = estimators_[i].predict(X_pred)", val)
+    S = pred_input(val[3][0], "dirrec predict input")
+    _need(_is(S, "sub", 4) and isinstance(S[1], Arr) and len(S[2]) == 3 and S[2][0] == FULL
+          and S[2][1] == FULL, "dirrec: X_pred = X_full[:, :, :hi]", S)
+    F = S[1]
+    lo, hi = _slice(S[2][2], "dirrec window")
+    _need(lo is None or lo == lin(0), "dirrec window must start at 0", S)
+    defs.append(("gen_dr_hi", "wl i", "Z", _gallina(_lin_in(hi, {"wl", "i"}, "dirrec window stop", ren))))
+    _need(F.shape[:2] == (lin(1), lin(1)) and len(F.shape) == 3, "dirrec: X_full = np.zeros((1, 1, len))", F)
+    defs.append(("gen_dr_buf", "wl q", "Z", _gallina(_lin_in(F.shape[2], {"wl", "q"}, "dirrec buffer length", ren))))
+    _need(len(F.writes) == 2 and S[3] == 1, "dirrec: one fill, window read before the feedback", F)
+    f0, f1 = F.writes
+    i2 = tuple(("slice", None, i[2]) if _is(i, "slice", 3) and i[1] == lin(0) else i for i in f0[2])
+    _need(f0[:2] == ((), ()) and i2 == (FULL, ("at", lin(0)), ("slice", None, lin(wl))) and f0[3] == y_last,
+          "dirrec: X_full[:, 0, :window_length] = y_last", f0[2:])
+    _need(not f1[0] and f1[1] == lp and len(f1[2]) == 3 and f1[2][0] == FULL
+          and f1[2][1] in (FULL, ("at", lin(0))) and f1[2][2][0] == "at"
+          and f1[3] == ("sub", Y, (("at", lin(iv)),), 1),
+          "dirrec: X_full[:, :, pos] = y_pred[i] after the prediction of step i", f1[2:])
+    defs.append(("gen_dr_fb", "wl i", "Z", _gallina(_lin_in(f1[2][2][1], {"wl", "i"}, "dirrec feedback position", ren))))
+    _need([e[0] for e in it.effects] == ["predict"], "dirrec: unexpected side effects")
+
+    # --- dirrec fit
+    hit = world.method("_DirRecReducer", "_fit")
+    _need(hit is not None and hit[0] == "_DirRecReducer", "_DirRecReducer._fit missing")
+    fn = hit[2]
+    params = [a.arg for a in fn.args.args]
+    _need(params[:3] == ["self", "y", "X"], "_DirRecReducer._fit signature")
+    it = Interp(world, hit[1], cls="_DirRecReducer", opaque_funcs=("_sliding_window_transform",))
+    res = it.block(it.body(fn), {p: ("name", p) for p in params})
+    used["_DirRecReducer"] |= set(n for c, n in it.inlined)
+    _need(_is(res, "cond", 4) and res[1] == ("isnone", Xp) and res[3] == ("raise", "NotImplementedError"),
+          "dirrec fit: exogenous X refused", res)
+    fits = [e for e in it.effects if e[0] == "fit"]
+    _need(len(fits) == 1, "dirrec fit: one estimator.fit in the loop")
+    _, g, lp, v = fits[0]
+    _need(len(lp) == 1 and lp[0][1] == lin(q), "dirrec fit: loop over range(len(self.fh))", lp)
+    iv = lp[0][0]
+    est = v[1]
+    _need(est == ("call", ("name", "clone"), (("attr", SELF, "estimator"),), ()),
+          "dirrec fit: a fresh clone of self.estimator per step", est)
+    Xf, tgt = v[3]
+    swt = ("call", ("name", "_sliding_window_transform"), (("name", "y"),), (
+        ("X", Xp), ("fh", ("mcall", ("attr", SELF, "fh"), "to_relative", (cut,), ())),
+        ("scitype", ("attr", SELF, "_estimator_scitype")), ("window_length", ("attr", SELF, "window_length"))))
+    yt = ("sub", swt, (("at", lin(0)),), 0)
+    xt0 = ("sub", swt, (("at", lin(1)),), 0)
+    xt = ("cond", _tab_cmp_self(), NP("expand_dims", xt0, axis=lin(1)), xt0)
+    full = NP("concatenate", ("list", xt, NP("expand_dims", yt, axis=lin(1))), axis=lin(2))
+    _need(tgt == ("sub", yt, (FULL, ("at", lin(iv))), 0), "dirrec fit: target yt[:, i]", tgt)
+    _need(_is(Xf, "cond", 4) and _tab_self(Xf[1]), "dirrec fit: tabular reshape of X_fit", Xf)
+    sl = Xf[3]
+    _need(_is(Xf[2], "mcall", 5) and Xf[2][2] == "reshape" and Xf[2][1] == sl and len(Xf[2][3]) == 2
+          and Xf[2][3][1] == lin(-1)
+          and aslin(Xf[2][3][0]) == lin(("sub", ("attr", sl, "shape"), (("at", lin(0)),), 0)),
+          "dirrec fit: X_fit.reshape(X_fit.shape[0], -1)", Xf[2])
+    _need(_is(sl, "sub", 4) and sl[1] == full and len(sl[2]) == 3 and sl[2][0] == FULL and sl[2][1] == FULL,
+          "dirrec fit: X_fit = X_full[:, :, :hi] of np.concatenate([Xt, yt[:, None, :]], axis=2)", sl)
+    lo, hi = _slice(sl[2][2], "dirrec fit window")
+    _need(lo is None or lo == lin(0), "dirrec fit window must start at 0", sl)
+    nt = ("sub", ("attr", xt, "shape"), (("at", lin(2)),), 0)      # Xt.shape[2] = window_length
+    defs.append(("gen_dr_fit_hi", "wl i", "Z", _gallina(_lin_in(hi, {"wl", "i"}, "dirrec fit window stop",
+                                                                 {nt: "wl", iv: "i"}))))
+    est_list = it.selfattrs.get("estimators_")
+    _need(isinstance(est_list, ListObj) and not est_list.items and len(est_list.appends) == 1
+          and est_list.appends[0][1] == lp and est_list.appends[0][2] == est,
+          "dirrec fit: estimators_ collects the fitted clones in step order", est_list)
+    return used
+
+
+def _tab_cmp_self():
+    return ("cmp", "==", ("attr", SELF, "_estimator_scitype"), ("str", "tabular-regressor"))
+
+
 FH_MIXINS = ("_OptionalForecastingHorizonMixin", "_RequiredForecastingHorizonMixin")
+STRATEGY_CLASSES = ("_DirectReducer", "_MultioutputReducer", "_RecursiveReducer", "_DirRecReducer")
 
 
-def _defines(cls, name):
-    """nodes in the class body that bind `name`"""
-    hits = []
-    for n in cls.body:
-        if isinstance(n, (ast.FunctionDef, ast.AsyncFunctionDef, ast.ClassDef)) and n.name == name:
-            hits.append(n)
-        elif isinstance(n, (ast.Assign, ast.AnnAssign, ast.AugAssign)):
-            tg = n.targets if isinstance(n, ast.Assign) else [n.target]
-            if any(isinstance(t, ast.Name) and t.id == name for t in ast.walk(ast.Tuple(elts=tg))):
-                hits.append(n)
-    return hits
-
-
-def _last_window(mod, mod2, mod3, defs):
-    """`_get_last_window` AS USED BY THE REDUCERS: every class derived from _Reducer must resolve it
-    to _BaseWindowForecaster._get_last_window (or to an override of the same recognised label-based
-    shape), which selects self._y.loc[cutoff - window_length_ + 1 : cutoff]"""
+def _last_window(world, defs):
+    """`_get_last_window` as every reducer class resolves it: the rows of self._y (and of self._X)
+    whose LABEL lies in [cutoff - window_length_ + 1, cutoff]"""
     name = "_get_last_window"
-    base_fn = _find(mod2, "_BaseWindowForecaster." + name)
-    base_cls = _find(mod2, "_BaseWindowForecaster")
-    _need(len(_defines(base_cls, name)) == 1, "_BaseWindowForecaster binds %s more than once" % name)
-    shift, lo, hi = _lw_shape(base_fn, "_BaseWindowForecaster")
-    for mx in FH_MIXINS:
-        _need(not _defines(_find(mod2, mx), name), "%s defines %s" % (mx, name))
-    # nobody patches the method from outside a class body
-    for m, fname in ((mod, "_reduce.py"), (mod2, "_sktime.py")):
-        for n in ast.walk(m):
-            if isinstance(n, (ast.Assign, ast.AugAssign, ast.AnnAssign, ast.Delete)):
-                tg = n.targets if isinstance(n, (ast.Assign, ast.Delete)) else [n.target]
-                for t in tg:
-                    for a in ast.walk(t):
-                        _need(not (isinstance(a, ast.Attribute) and a.attr == name),
-                              "%s: %s is assigned from outside a class body" % (fname, name), n)
-            _need(not (isinstance(n, ast.Constant) and n.value == name),
-                  "%s: the string %r is used (setattr / getattr?)" % (fname, name))
-    # the classes of _reduce.py that derive from _Reducer
+    vals = []
+    for cname in STRATEGY_CLASSES:
+        hit = world.method(cname, name)
+        _need(hit is not None, "%s does not resolve %s" % (cname, name))
+        c, mn, fn = hit
+        _need([a.arg for a in fn.args.args] == ["self"], "%s.%s signature" % (c, name))
+        it = Interp(world, mn, cls=cname)
+        res = it.block(it.body(fn), {"self": SELF})
+        _need(not it.effects, "%s.%s has side effects" % (c, name))
+        vals.append((c, res))
+    _need(all(v[1] == vals[0][1] for v in vals), "the reducers resolve %s to different windows" % name)
+    owner, res = vals[0]
+    _need(_is(res, "tuple", 3), "%s must return (y, X)" % name, res)
+
+    def loc(v, base, what):
+        _need(_is(v, "mcall", 5) and v[2] == "to_numpy" and not v[3] and not v[4] and _is(v[1], "sub", 4)
+              and v[1][1] == ("attr", ("attr", SELF, base), "loc") and len(v[1][2]) == 1,
+              what + ": expected the label-based selection self.%s.loc[lo:hi].to_numpy()" % base, v)
+        return _slice(v[1][2][0], what)
+    ylo, yhi = loc(res[1], "_y", "window of y")
+    _need(_is(res[2], "cond", 4) and res[2][1] == ("isnone", ("attr", SELF, "_X")) and res[2][2] == NONE,
+          "window of X: None when no X was given", res[2])
+    xlo, xhi = loc(res[2][3], "_X", "window of X")
+    _need((xlo, xhi) == (ylo, yhi), "X is sliced with other bounds than y", res)
+    ren = {("attr", SELF, "cutoff"): "c", ("attr", SELF, "window_length_"): "wl"}
+    lo = _lin_in(ylo, {"wl", "c"}, "window start", ren)
+    hi = _lin_in(yhi, {"wl", "c"}, "window stop", ren)
+    defs.append(("gen_lw_lo", "wl c", "Z", _gallina(lo)))
+    defs.append(("gen_lw_hi", "wl c", "Z", _gallina(hi)))
+    return res[1], res[2]
+
+
+def _class_facts(world, used):
+    """structure the symbolic runs rely on: who derives from _Reducer, and that nobody below the four
+    strategy classes (or from outside a class body) rebinds a method the runs went through"""
+    mod, mod2 = world.mods["reduce"], world.mods["sktime_base"]
     classes = {n.name: n for n in mod.body if isinstance(n, ast.ClassDef)}
     _need("_Reducer" in classes and [_u(b) for b in classes["_Reducer"].bases] == ["_BaseWindowForecaster"],
           "_Reducer must derive from _BaseWindowForecaster only")
-    imported = [a.name for n in mod.body if isinstance(n, ast.ImportFrom)
-                and n.module == "sktime.forecasting.base._sktime" for a in n.names]
-    _need(all(x in imported for x in ("_BaseWindowForecaster",) + FH_MIXINS),
-          "_BaseWindowForecaster / the fh mixins are not imported from sktime.forecasting.base._sktime")
+    imp = world.imports["reduce"]
+    for x in ("_BaseWindowForecaster",) + FH_MIXINS:
+        _need(imp.get(x) == ("sktime_base", x),
+              "%s is not imported from sktime.forecasting.base._sktime" % x)
+    _need(world.imports["sktime_base"].get("_shift") == ("datetime", "_shift"),
+          "_sktime.py does not import _shift from sktime.utils.datetime")
     reducers = {"_Reducer"}
     changed = True
     while changed:
@@ -329,6 +1241,10 @@ def _last_window(mod, mod2, mod3, defs):
                 changed = True
     _need(len(reducers) >= 13, "expected _Reducer, 4 strategy classes and 8 public forecasters, found %d"
           % len(reducers))
+    for s in STRATEGY_CLASSES:
+        _need(s in reducers, "%s does not derive from _Reducer" % s)
+    followed = set().union(*used.values()) | {"_predict_last_window", "_get_last_window", "_fit",
+                                              "_transform", "_is_predictable", "_predict_nan"}
     for cn in sorted(reducers):
         c = classes[cn]
         if cn != "_Reducer":
@@ -336,46 +1252,38 @@ def _last_window(mod, mod2, mod3, defs):
                 _need(_u(b) in reducers or _u(b) in FH_MIXINS,
                       "reducer class %s has the unknown base %s" % (cn, _u(b)))
         _need(not c.keywords and not c.decorator_list, "reducer class %s has a metaclass / decorator" % cn)
-        for d in _defines(c, name):
-            # an override is accepted only if it is the same recognised label-based selection
-            _need(isinstance(d, ast.FunctionDef), "%s.%s is overridden by a non-function" % (cn, name), d)
-            got = _lw_shape(d, cn)
-            _need(got == (shift, lo, hi), "%s.%s selects another window than the base class" % (cn, name))
-        _need(not _defines(c, "__getattr__") and not _defines(c, "__getattribute__"),
-              "reducer class %s intercepts attribute access" % cn)
-    # how the reducers use it: one call per _predict_last_window, its result is the window
-    uses = [n for n in ast.walk(mod) if isinstance(n, ast.Attribute) and n.attr == name]
-    _need(len(uses) == len(REDUCER_PREDICTS), "expected %d uses of %s in _reduce.py, found %d"
-          % (len(REDUCER_PREDICTS), name, len(uses)))
-    for cn, fills in REDUCER_PREDICTS.items():
-        fn = _find(mod, cn + "._predict_last_window")
-        _unique_stmt(fn, lambda n: isinstance(n, ast.Assign)
-                     and _u(n).replace("(", "").replace(")", "")
-                     == "y_last, X_last = self._get_last_window",
-                     "%s: y_last, X_last = self._get_last_window()" % cn)
-        for fill in fills:
-            _unique_stmt(fn, lambda n, fill=fill: isinstance(n, ast.Assign) and _u(n) == fill,
-                         "%s: %s" % (cn, fill))
-        for v in ("y_last", "X_last"):
-            st = [n for n in ast.walk(fn) if isinstance(n, ast.Name) and n.id == v
-                  and isinstance(n.ctx, ast.Store)]
-            _need(len(st) == 1, "%s: %s is bound %d times" % (cn, v, len(st)))
-    # _shift on an integer time point is x + by
-    sh = _body(_find(mod3, "_shift"))
-    _need([a.arg for a in _find(mod3, "_shift").args.args] == ["x", "by"], "_shift signature")
-    _need(len(sh) == 4 and all(isinstance(x, ast.Assert) for x in sh[:2])
-          and isinstance(sh[2], ast.If) and _u(sh[2].test) == "isinstance(x, pd.Timestamp)"
-          and not sh[2].orelse and _u(sh[3]) == "return x + by", "_shift body (x + by on integers)")
-    _need(any(isinstance(n, ast.ImportFrom) and n.module == "sktime.utils.datetime"
-              and any(a.name == "_shift" and a.asname is None for a in n.names) for n in mod2.body),
-          "_sktime.py does not import _shift from sktime.utils.datetime")
-    defs.append(("gen_lw_shift", "wl", "Z", shift))
-    defs.append(("gen_lw_lo", "wl c", "Z", lo))
-    defs.append(("gen_lw_hi", "wl c", "Z", hi))
+        bound = set()
+        for n in c.body:
+            if isinstance(n, (ast.FunctionDef, ast.AsyncFunctionDef, ast.ClassDef)):
+                bound.add(n.name)
+            elif isinstance(n, (ast.Assign, ast.AnnAssign, ast.AugAssign)):
+                for t in (n.targets if isinstance(n, ast.Assign) else [n.target]):
+                    bound |= {a.id for a in ast.walk(t) if isinstance(a, ast.Name)}
+        _need(not bound & {"__getattr__", "__getattribute__"}, "reducer class %s intercepts attribute access" % cn)
+        if cn not in STRATEGY_CLASSES and cn != "_Reducer":
+            # a public forecaster below a strategy class: it must not rebind anything the runs followed
+            _need(not bound & followed, "%s overrides %s" % (cn, sorted(bound & followed)))
+    # nobody patches a followed method from outside a class body
+    for m, fname in ((mod, "_reduce.py"), (mod2, "_sktime.py")):
+        for n in ast.walk(m):
+            if isinstance(n, (ast.Assign, ast.AugAssign, ast.AnnAssign, ast.Delete)):
+                tg = n.targets if isinstance(n, (ast.Assign, ast.Delete)) else [n.target]
+                for t in tg:
+                    for a in ast.walk(t):
+                        _need(not (isinstance(a, ast.Attribute) and a.attr in followed
+                                   and _u(a.value) != "self"),
+                              "%s: %s is assigned from outside a class body" % (fname, _u(a)))
+            _need(not (isinstance(n, ast.Constant) and isinstance(n.value, str) and n.value in followed
+                       and n.value.startswith("_")),
+                  "%s: the string %r is used (setattr / getattr?)" % (fname, getattr(n, "value", "")))
 
 
-HEADER = """(* GENERATED by translator/reduce_c05.py from sktime/forecasting/compose/_reduce.py and
-   sktime/forecasting/base/_sktime.py -- do not edit.  Integer expressions of the source. *)
+HEADER = """(* GENERATED by translator/reduce_c05.py from sktime/forecasting/compose/_reduce.py,
+   sktime/forecasting/base/_sktime.py and sktime/utils/datetime.py by symbolic execution -- do not
+   edit.  Integer expressions of the source as canonical linear forms over the base symbols:
+   wl = window_length, fm = last entry of the horizon indexer (swt) / largest step (recursive),
+   n = number of time points, k / i = loop variables, h = an entry of the horizon indexer,
+   q = len(self.fh), c = cutoff. *)
 From Coq Require Import ZArith Bool.
 Open Scope Z_scope.
 
@@ -383,16 +1291,20 @@ Open Scope Z_scope.
 
 
 def translate(repo):
+    mods = {}
+    for key, rel in (("reduce", "sktime/forecasting/compose/_reduce.py"),
+                     ("sktime_base", "sktime/forecasting/base/_sktime.py"),
+                     ("datetime", "sktime/utils/datetime.py")):
+        with open(os.path.join(repo, rel)) as f:
+            mods[key] = ast.parse(f.read())
+    world = World(mods, {"sktime.forecasting.base._sktime": "sktime_base",
+                         "sktime.utils.datetime": "datetime",
+                         "sktime.forecasting.compose._reduce": "reduce"})
     defs = []
-    with open(os.path.join(repo, "sktime/forecasting/compose/_reduce.py")) as f:
-        mod = ast.parse(f.read())
-    _swt(mod, defs)
-    _strategies(mod, defs)
-    with open(os.path.join(repo, "sktime/forecasting/base/_sktime.py")) as f:
-        mod2 = ast.parse(f.read())
-    with open(os.path.join(repo, "sktime/utils/datetime.py")) as f:
-        mod3 = ast.parse(f.read())
-    _last_window(mod, mod2, mod3, defs)
+    _swt(world, defs)
+    lw = _last_window(world, defs)
+    used = _predicts(world, defs, lw)
+    _class_facts(world, used)
     out = [HEADER]
     for name, params, ty, body in defs:
         out.append("Definition %s (%s : Z) : %s := %s.\n" % (name, params, ty, body))
